@@ -170,6 +170,38 @@ fn files(tier: Tier) -> Vec<(String, Vec<u8>)> {
             out.push((format!("wide-output:{}:pad{}", cn, pad), model::words_to_bytes(&w)));
         }
     }
+    // files that are not SPIR-V at all but something a user may pass by mistake: the tool's own listing, other file
+    // formats' magic numbers, scripts, empty lines (the expected output is whatever the library says about those bytes)
+    {
+        let listing = {
+            let w: Vec<u32> = v.chunks(4).map(|c| u32::from_le_bytes([c[0], c[1], c[2], c[3]])).collect();
+            rspirv::dr::load_words(&w).map(|m| m.disassemble()).unwrap_or_default()
+        };
+        let texts: Vec<(&str, Vec<u8>)> = vec![
+            ("own-listing", listing.clone().into_bytes()),
+            ("own-listing-first-line", listing.lines().next().unwrap_or("").as_bytes().to_vec()),
+            ("spirv-comment", b"; SPIR-V\n; Version: 1.3\n; Generator: rspirv\n; Bound: 10\n".to_vec()),
+            ("spirv-comment-8", b"; SPIR-V".to_vec()),
+            ("shebang", b"#!/bin/sh\nexit 0\n".to_vec()),
+            ("elf", b"\x7fELF\x02\x01\x01\0\0\0\0\0\0\0\0\0\x03\0\x3e\0".to_vec()),
+            ("png", b"\x89PNG\r\n\x1a\n\0\0\0\rIHDR".to_vec()),
+            ("gzip", b"\x1f\x8b\x08\0\0\0\0\0\0\x03".to_vec()),
+            ("zip", b"PK\x03\x04\x14\0\0\0\x08\0".to_vec()),
+            ("json", b"{\"spirv\": true}\n".to_vec()),
+            ("xml", b"<?xml version=\"1.0\"?>\n<a/>\n".to_vec()),
+            ("utf16-bom", b"\xff\xfe;\0 \0S\0P\0".to_vec()),
+            ("utf8-bom", b"\xef\xbb\xbf; SPIR-V\n".to_vec()),
+            ("newlines", b"\n\n\n\n\n\n\n\n\n\n\n\n\n\n\n\n\n\n\n\n\n\n\n\n".to_vec()),
+            ("glsl", b"#version 450\nvoid main() {}\n".to_vec()),
+            ("llvm-bc", b"BC\xc0\xde\x35\x14\0\0\x05\0\0\0".to_vec()),
+            ("dxbc", b"DXBC\0\0\0\0\0\0\0\0\0\0\0\0\0\0\0\0".to_vec()),
+            ("wasm", b"\0asm\x01\0\0\0".to_vec()),
+            ("spirv-text-op", b"OpCapability Shader\nOpMemoryModel Logical GLSL450\n".to_vec()),
+        ];
+        for (n, b) in texts {
+            out.push((format!("foreign:{}", n), b));
+        }
+    }
     for (n, w) in crate::universe::deep_nesting_words() {
         out.push((n, model::words_to_bytes(&w)));
     }
@@ -342,6 +374,67 @@ pub fn run(tier: Tier) -> Run {
             }
         })
         .collect();
+    // the same bytes through something that is not a regular file: a named pipe (its size is reported as 0) - the tool reads
+    // what the file yields, whatever kind of file it is
+    let mut res = res;
+    {
+        let picks: Vec<&(String, Vec<u8>)> = fs.iter().filter(|f| f.0 == "valid-prefix-20" || f.0.starts_with("valid-prefix-") && f.1.len() == valid_module().len() || f.0 == "empty" || f.0 == "foreign:own-listing" || f.0.starts_with("many-lines:100")).collect();
+        let mut piped = 0u64;
+        for (what, bytes) in picks.into_iter().map(|f| (&f.0, &f.1)) {
+            let fifo = dir.join(format!("pipe-{}", piped));
+            let _ = std::fs::remove_file(&fifo);
+            if !Command::new("mkfifo").arg(&fifo).status().map(|s| s.success()).unwrap_or(false) {
+                break;
+            }
+            let so = dir.join(format!("pipe-{}.out", piped));
+            let child = (|| -> std::io::Result<std::process::Child> { Command::new(&bin).arg(&fifo).stdout(std::fs::File::create(&so)?).stderr(std::process::Stdio::null()).spawn() })();
+            let Ok(mut child) = child else { break };
+            let data = bytes.clone();
+            let fpath = fifo.clone();
+            let writer = std::thread::spawn(move || {
+                if let Ok(mut f) = std::fs::OpenOptions::new().write(true).open(&fpath) {
+                    use std::io::Write;
+                    let _ = f.write_all(&data);
+                }
+            });
+            let started = std::time::Instant::now();
+            let status = loop {
+                match child.try_wait() {
+                    Ok(Some(st)) => break Some(st),
+                    Ok(None) if started.elapsed().as_secs() >= HORIZON_SECS => {
+                        let _ = child.kill();
+                        let _ = child.wait();
+                        // unblock a writer still waiting for a reader
+                        let _ = std::fs::OpenOptions::new().read(true).open(&fifo);
+                        break None;
+                    }
+                    Ok(None) => std::thread::sleep(std::time::Duration::from_millis(2)),
+                    Err(_) => break None,
+                }
+            };
+            let _ = writer.join();
+            let stdout = String::from_utf8_lossy(&std::fs::read(&so).unwrap_or_default()).to_string();
+            let _ = std::fs::remove_file(&fifo);
+            let _ = std::fs::remove_file(&so);
+            piped += 1;
+            let want = match guarded(|| match rspirv::dr::load_bytes(bytes) {
+                Ok(m) => format!("{}\n", m.disassemble()),
+                Err(e) => format!("{}\n", e),
+            }) {
+                Ok(w) => w,
+                Err(_) => continue,
+            };
+            let rep = json!({"kind": "bytes", "bytes": hex(bytes), "file": what, "through": "named pipe"});
+            if status.map(|s| s.code()) != Some(Some(0)) {
+                res.push((Some(viol("C20:exit:named-pipe", format!("file {} read through a named pipe: exit status {:?}", what, status.map(|s| s.code())), rep)), "crash"));
+            } else if stdout != want {
+                res.push((Some(viol("C20:stdout:named-pipe", format!("file {} read through a named pipe: stdout {:?}, expected {:?}", what, stdout.chars().take(120).collect::<String>(), want.chars().take(120).collect::<String>()), rep)), "stdout-differs"));
+            } else {
+                res.push((None, "named-pipe-ok"));
+            }
+        }
+        run.outcome("files_through_a_named_pipe", piped);
+    }
     let _ = std::fs::remove_dir_all(&dir);
     let mut n = 0u64;
     for (v, o) in res {
